@@ -1,8 +1,10 @@
 (* C12 model, part 3: statements that write annotated variables.  Definitions only.
    Transcribes (src/eval.rs): Expr::Assign (~815) through assign / assign_every (~2709) for
    identifiers, Expr::OpAssign (~902: read, drop_lhs, apply, assign), modify_every (~2811) for
-   identifiers, Expr::Swap (~893), assign_respecting_type with one list index (~2477: the late
-   type check happens after the write), set_index list case (~2128) with pythonic_index.
+   identifiers, Expr::Swap (~893), assign_respecting_type with one index or slice (~2477: the late
+   type check happens after the write, for every declared type), set_index (~2120) for lists,
+   streams (forced into a list in the variable first), vectors, bytes, dictionaries, with
+   pythonic_index / pythonic_slice; x[i] op= v through eval_lvalue_as_obj / drop_lhs / assign.
    The operator of an op-assignment is an arbitrary function `val -> val -> outcome val`;
    the theorems quantify over it (a small table, `binop_std`, instantiates the extracted runner). *)
 From Coq Require Import ZArith NArith List Bool Lia.
@@ -17,7 +19,9 @@ Inductive stmt :=
 | SEvery (xs : list N) (v : val)           (* every x, y = v *)
 | SEveryOp (x : N) (op : N) (v : val)      (* every x op= v *)
 | SSwap (x y : N)                          (* swap x, y *)
-| SSetIndex (x : N) (i : Z) (v : val).     (* x[i] = v *)
+| SSetIndex (x : N) (i : Z) (v : val)      (* x[i] = v   (also: every x[i] = v) *)
+| SSetSlice (x : N) (lo hi : option Z) (every : bool) (v : val)   (* [every] x[lo:hi] = v *)
+| SOpIndex (x : N) (i : Z) (op : N) (v : val).                    (* x[i] op= v *)
 
 Section Stmt.
   Variable sat : N -> val -> outcome bool.
@@ -72,37 +76,143 @@ Section Stmt.
     | _, _ => (s, Err EName)
     end.
 
-  (* pythonic_index on a list of length n *)
+  (* pythonic_index on a sequence of length n *)
   Definition py_pos (n : nat) (i : Z) : option nat :=
     if (0 <=? i) && (i <? Z.of_nat n) then Some (Z.to_nat i)
     else if (i <? 0) && (- Z.of_nat n <=? i) then Some (Z.to_nat (Z.of_nat n + i))
     else None.
-  Fixpoint set_nth (l : list val) (k : nat) (v : val) : list val :=
+  Fixpoint set_nth {A} (l : list A) (k : nat) (v : A) : list A :=
     match l, k with
     | [], _ => []
     | _ :: r, O => v :: r
     | h :: r, S k' => h :: set_nth r k' v
     end.
-  (* x[i] = v: no eager check; the write happens; the declared type is checked afterwards, and a
-     failure of that late check raises but leaves the new value in place *)
-  Definition set_index (s : store) (x : N) (i : Z) (v : val) : res :=
+  (* set_index / modify_existing_index begin with: a stream that is indexed is replaced, in the
+     variable, by the list of its elements *)
+  Definition force_seq (v : val) : val := match v with VStream l => VList l | _ => v end.
+
+  Fixpoint dict_put (ks vs : list val) (k v : val) : list val * list val :=
+    match ks, vs with
+    | k0 :: ks', v0 :: vs' =>
+      if veq k0 k then (k0 :: ks', v :: vs')
+      else let (a, b) := dict_put ks' vs' k v in (k0 :: a, v0 :: b)
+    | _, _ => ([k], [v])
+    end.
+  Fixpoint dict_get (ks vs : list val) (k : val) : option val :=
+    match ks, vs with
+    | k0 :: ks', v0 :: vs' => if veq k0 k then Some v0 else dict_get ks' vs' k
+    | _, _ => None
+    end.
+
+  (* set_index with one Index, on the (already forced) container *)
+  Definition set_elem (c : val) (i : Z) (v : val) : outcome val :=
+    match c with
+    | VList l =>
+      match py_pos (length l) i with Some k => Ok (VList (set_nth l k v)) | None => Err EIndex end
+    | VVec l =>
+      match v with
+      | VNum n => match py_pos (length l) i with Some k => Ok (VVec (set_nth l k n)) | None => Err EIndex end
+      | _ => Err EType
+      end
+    | VBytes l =>
+      match v with
+      | VNum n =>
+        match py_pos (length l) i with
+        | Some k =>
+          match n with
+          | NInt z => if (0 <=? z) && (z <? 256) then Ok (VBytes (set_nth l k (Z.to_N z))) else Err EValue
+          | _ => Err EValue
+          end
+        | None => Err EIndex
+        end
+      | _ => Err EType
+      end
+    | VDict ks vs => let (a, b) := dict_put ks vs (vint i) v in Ok (VDict a b)
+    | VStr _ => Err EValue                     (* byte surgery on strings is not modelled *)
+    | _ => Err EIndex
+    end.
+
+  (* clamped_pythonic_index / pythonic_slice *)
+  Definition clamp (n : nat) (i : Z) : nat :=
+    if 0 <=? i then Nat.min (Z.to_nat i) n else Z.to_nat (Z.max 0 (i + Z.of_nat n)).
+  Definition slice_bounds (n : nat) (lo hi : option Z) : nat * nat :=
+    let a := match lo with Some i => clamp n i | None => O end in
+    let b := match hi with Some i => clamp n i | None => n end in
+    (a, Nat.max b a).
+  (* set_index with one Slice *)
+  Definition set_slice (c : val) (lo hi : option Z) (every : bool) (v : val) : outcome val :=
+    match c with
+    | VList l =>
+      if every then
+        let (a, b) := slice_bounds (length l) lo hi in
+        Ok (VList (firstn a l ++ repeat v (b - a) ++ skipn b l))
+      else Err EType
+    | VDict ks vs =>
+      match lo, hi with
+      | None, None => if every then Ok (VDict ks (map (fun _ => v) vs)) else Err EType
+      | _, _ => Err EType
+      end
+    | VStr _ | VVec _ | VBytes _ => Err EType
+    | _ => Err EIndex
+    end.
+
+  (* assign_respecting_type with a non-empty index list: no eager check; the stream forcing and
+     the write happen in the variable; the declared type - whatever it is - is checked afterwards,
+     and a failure of that late check raises but leaves the new value in place *)
+  Definition write_indexed (s : store) (x : N) (f : val -> outcome val) : res :=
     match lookup s x with
     | None => (s, Err EName)
-    | Some (t, VList l) =>
-      match py_pos (length l) i with
-      | None => (s, Err EIndex)
-      | Some k =>
-        let nv := VList (set_nth l k v) in
-        let s1 := set_val s x nv in
+    | Some (t, old) =>
+      let c := force_seq old in
+      let s0 := set_val s x c in
+      match f c with
+      | Ok nv =>
+        let s1 := set_val s0 x nv in
         match is_type sat t nv with
         | Ok true => (s1, Ok tt)
         | Ok false => (s1, Err EType)
-        | Err c => (s1, Err c)
+        | Err e => (s1, Err e)
         | Panic => (s1, Panic)
         | OutOfFuel => (s1, OutOfFuel)
         end
+      | Err e => (s0, Err e)
+      | Panic => (s0, Panic)
+      | OutOfFuel => (s0, OutOfFuel)
       end
-    | Some _ => (s, Err EType)       (* other containers are not modelled *)
+    end.
+  Definition set_index (s : store) (x : N) (i : Z) (v : val) : res :=
+    write_indexed s x (fun c => set_elem c i v).
+
+  (* x[i] op= v: read the element (index_or_slice, no forcing), drop it (set_index with None and
+     every: a list or dict slot becomes null, vectors and bytes are left alone; a stream is forced),
+     apply, then assign through the index with the late check *)
+  Definition read_elem (c : val) (i : Z) : outcome val :=
+    match c with
+    | VList l | VStream l =>
+      match py_pos (length l) i with Some k => Ok (nth k l VNull) | None => Err EIndex end
+    | VVec l =>
+      match py_pos (length l) i with Some k => Ok (VNum (nth k l (NInt 0))) | None => Err EIndex end
+    | VBytes l =>
+      match py_pos (length l) i with Some k => Ok (vint (Z.of_N (nth k l 0%N))) | None => Err EIndex end
+    | VDict ks vs => match dict_get ks vs (vint i) with Some w => Ok w | None => Err EKey end
+    | _ => Err EType
+    end.
+  Definition drop_elem (c : val) (i : Z) : outcome val :=
+    match c with
+    | VList _ | VDict _ _ => set_elem c i VNull
+    | VVec _ | VBytes _ => Ok c
+    | _ => Err EIndex
+    end.
+  Definition op_index (s : store) (x : N) (i : Z) (op : N) (v : val) : res :=
+    match lookup s x with
+    | None => (s, Err EName)
+    | Some (_, old) =>
+      lift s (read_elem old i) (fun e =>
+        let c := force_seq old in
+        let s0 := set_val s x c in
+        lift s0 (drop_elem c i) (fun d =>
+          let s1 := set_val s0 x d in
+          lift s1 (binop op e v) (fun r => write_indexed s1 x (fun c' => set_elem c' i r))))
     end.
 
   Definition run_stmt (st : stmt) (s : store) : res :=
@@ -114,6 +224,8 @@ Section Stmt.
     | SEveryOp x op v => every_op s x op v
     | SSwap x y => swap s x y
     | SSetIndex x i v => set_index s x i v
+    | SSetSlice x lo hi ev v => write_indexed s x (fun c => set_slice c lo hi ev v)
+    | SOpIndex x i op v => op_index s x i op v
     end.
 
   (* a history: every statement runs on the store its predecessor left, whatever its outcome
@@ -148,17 +260,34 @@ Definition writes (st : stmt) : list N :=
   | SEveryOp x _ _ => [x]
   | SSwap x y => [x; y]
   | SSetIndex x _ _ => [x]
+  | SSetSlice x _ _ _ _ => [x]
+  | SOpIndex x _ _ _ => [x]
   end.
 
 (* ---------------------------------------------------------------- the operators of the runs *)
 (* 0 `+`  1 `-`  2 `*`  3 `max`  4 `min`  5 `append`  6 `$` is not modelled *)
+Fixpoint zip_nums (f : num -> num -> num) (a b : list num) : list num :=
+  match a, b with x :: r, y :: s => f x y :: zip_nums f r s | _, _ => [] end.
+(* expect_nums_and_vectorize_2_nums *)
+Definition vectorize2 (f : num -> num -> num) (a b : val) : outcome val :=
+  match a, b with
+  | VNum x, VNum y => Ok (VNum (f x y))
+  | VNum x, VVec l => Ok (VVec (map (f x) l))
+  | VVec l, VNum y => Ok (VVec (map (fun e => f e y) l))
+  | VVec l1, VVec l2 => if Nat.eqb (length l1) (length l2) then Ok (VVec (zip_nums f l1 l2)) else Err EValue
+  | _, _ => Err EArg
+  end.
 Definition binop_std (inexact : iop -> num -> num -> num) (op : N) (a b : val) : outcome val :=
   match op, a, b with
-  | 0%N, VNum x, VNum y => Ok (VNum (num_add inexact x y))
-  | 1%N, VNum x, VNum y => Ok (VNum (num_sub inexact x y))
-  | 2%N, VNum x, VNum y => Ok (VNum (num_mul inexact x y))
+  | 0%N, _, _ => vectorize2 (num_add inexact) a b
+  | 1%N, _, _ => vectorize2 (num_sub inexact) a b
+  | 2%N, _, _ => vectorize2 (num_mul inexact) a b
   | 3%N, _, _ => c <- ncmp b a ;; Ok (match c with Gt => b | _ => a end)
   | 4%N, _, _ => c <- ncmp b a ;; Ok (match c with Lt => b | _ => a end)
   | 5%N, VList l, _ => Ok (VList (l ++ [b]))
+  | 5%N, VVec l, VNum n => Ok (VVec (l ++ [n]))
+  | 5%N, VVec l, _ => Err EType
+  | 5%N, VBytes l, VNum (NInt z) => if (0 <=? z) && (z <? 256) then Ok (VBytes (l ++ [Z.to_N z])) else Err EValue
+  | 5%N, VBytes l, _ => Err EValue
   | _, _, _ => Err EArg
   end.
